@@ -1106,7 +1106,7 @@ pub fn override_slice_scenario(rep: &mut Report) {
 /// buffer): resized values are still zero-extended / truncated, every listed entry keeps its bytes,
 /// a failed operation changes nothing.  Checked with an independent walk over the raw bytes, since
 /// the garbage may legitimately end up right behind the last entry.
-pub fn dirty_tail_scenario(rep: &mut Report, prop: &str, rng: &mut Rng) {
+pub fn dirty_tail_scenario(rep: &mut Report, prop: &str, rng: &mut Rng, to_coq: bool) {
     let ne = rng.range(1, 5) as usize;
     let es: Vec<(usize, Vec<u8>)> = (0..ne).map(|_| { let l = rng.below(12) as usize; (rng.below(NTAGS as u64) as usize, rng.bytes(l)) }).collect();
     let used: usize = es.iter().map(|(_, v)| 12 + v.len()).sum();
@@ -1129,6 +1129,12 @@ pub fn dirty_tail_scenario(rep: &mut Report, prop: &str, rng: &mut Rng) {
     let expect = o.apply(&op);
     let got = apply_op(&mut buf, &op);
     rep.count(&format!("dirty-tail:{}:{}", op_name(&op), got.kind()));
+    if to_coq {
+        // the byte-level model runs on the same dirty slab
+        let cur_len = match &op { Op::Write { .. } => old, _ => 0 };
+        let item = format!("IOp ({}) {} {}", emit_op(&op, cur_len), got.emit(|(a, b)| format!("({}, {})", a, b)), cksum(&buf));
+        rep.case(format!("CHist {} [\n  {}\n ] {}", emit::blob(&before), item, emit::blob(&buf)), got.is_ok());
+    }
     rep.monitor_runs += 1;
     let det = |what: &str, after: &[u8]| serde_json::json!({"what": what, "before": emit::hex(&before), "op": format!("{:?}", op), "observed": format!("{:?}", got), "after": emit::hex(after)}).to_string();
     let class = if prop == "C04" { "dirty-tail-failed-op" } else { "dirty-tail" };
@@ -1217,8 +1223,8 @@ pub fn run(ctx: &Ctx, prop: &str) -> Report {
         rep.count("history:thousands-of-entries");
     }
     override_slice_scenario(&mut rep);
-    for _ in 0..ctx.scale(400, 4000) {
-        dirty_tail_scenario(&mut rep, prop, &mut rng);
+    for k in 0..ctx.scale(400, 4000) {
+        dirty_tail_scenario(&mut rep, prop, &mut rng, k < ctx.scale(120, 1200));
     }
     {
         // more than 256 entries of one type: repetition numbers 255, 256, 257 must address the right entry
